@@ -69,6 +69,44 @@ def dims_equal(a, b, what="conformable"):
     return ok
 
 
+SCALAR_RULE = [False]     # opt-in (set by a check for the duration of one case): 1x1 self-adjoint subwords are real scalars
+
+
+def extract_real_scalars(w):
+    """A subword x with one row and one column that equals its own conjugate transpose is a real number (a 1x1 self-adjoint
+    quaternion matrix), namely tr(x); real numbers are central, so it is pulled out of the word as a coefficient.
+    Returns (remaining word, [scalars])."""
+    w = list(w)
+    out = []
+    changed = True
+    while changed and w:
+        changed = False
+        n = len(w)
+        for ln in range(1, n + 1):           # shortest first
+            for i in range(0, n - ln + 1):
+                sub = tuple(w[i:i + ln])
+                r0 = _letter_dims(sub[0])[0]
+                c1 = _letter_dims(sub[-1])[1]
+                if not (isinstance(r0, int) and r0 == 1 and isinstance(c1, int) and c1 == 1):
+                    continue
+                rev = tuple((nm, not st) for nm, st in reversed(sub))
+                if normalize_word(rev) != normalize_word(sub):
+                    continue
+                cw = _canon_trace_word(sub)
+                if not cw:
+                    val = Fraction(1)
+                else:
+                    val = SReal(z3.Real("tr[" + word_str(cw) + "]"))
+                out.append(val)
+                del w[i:i + ln]
+                w = list(normalize_word(tuple(w)))
+                changed = True
+                break
+            if changed:
+                break
+    return tuple(w), out
+
+
 def _letter_dims(l):
     a = ATOMS[l[0]]
     return (a.cols, a.rows) if l[1] else (a.rows, a.cols)
@@ -230,10 +268,16 @@ class NC:
             return NotImplemented
         dims_equal(self.cols, o.rows, "conformable.matmul")
         d = {}
+        pull = SCALAR_RULE[0]
         for w1, v1 in self.t.items():
             for w2, v2 in o.t.items():
                 w = normalize_word(w1 + w2)
-                nv = d.get(w, Fraction(0)) + v1 * v2
+                coef = v1 * v2
+                if pull and w:
+                    w, extra = extract_real_scalars(w)
+                    for e in extra:
+                        coef = coef * e
+                nv = d.get(w, Fraction(0)) + coef
                 d[w] = nv
         return NC(d, self.rows, o.cols)
 
@@ -280,9 +324,15 @@ def nc_diff_words(a: NC, b: NC):
     Words containing an atom known to be zero on the current path (e.g. csr.nnz == 0) are dropped."""
     out = []
     za = zero_atoms()
+    try:
+        zw = cur().ghost.get("zero_words", ())
+    except Exception:
+        zw = ()
     for w in sorted(a.words() | b.words(), key=str):
         if za and any(n in za for n, _ in w):
             continue
+        if zw and any(tuple(w[i:i + len(z_)]) == z_ for z_ in zw for i in range(len(w) - len(z_) + 1)):
+            continue        # contains a factor known to vanish on this path (e.g. a 1x1 quaternion of modulus 0)
         ca, cb = a.t.get(w, Fraction(0)), b.t.get(w, Fraction(0))
         if isinstance(ca, Fraction) and isinstance(cb, Fraction):
             if ca != cb:
